@@ -82,7 +82,9 @@ class Sweep(object):
                 if '/deprecated/' in f.module.rel or not series_mutation(f.node):
                     continue
                 for w in ast.walk(f.node):
-                    if isinstance(w, ast.While):
+                    # the convergence loop compares an error measure with a tolerance (a `while changed:` fixpoint is not it)
+                    if isinstance(w, ast.While) and any(isinstance(x, ast.Compare) and isinstance(x.ops[0], (ast.Gt, ast.GtE, ast.Lt, ast.LtE))
+                                                        for x in ast.walk(w.test)):
                         for fr in ast.walk(w):
                             if isinstance(fr, ast.For) and iter_partition(fr) == 'Endogenous' and eval_calls(fr):
                                 out.append((f, w, fr))
